@@ -63,6 +63,13 @@ def startsWithGroup : Tree → Bool
   | .un _ _ => false
   | .bin _ _ l _ => startsWithGroup l
 
+/-- Every literal leaf (also inside groups) satisfies `p`. -/
+def allLits (p : Bytes → Bool) : Tree → Bool
+  | .lit v => p v
+  | .grp _ e => allLits p e
+  | .un _ e => allLits p e
+  | .bin _ _ l r => allLits p l && allLits p r
+
 def size : Tree → Nat
   | .lit _ => 1
   | .grp _ e => size e + 1
